@@ -106,6 +106,18 @@ def sources():
         out.append((name, PARKIND + 'module scc_mod\ncontains\n' + DRV + KHDR.format(decls=decls, body=body) + 'end module scc_mod\n'))
     nested = KHDR.format(decls='  real :: tmp(nlon, nz)', body='  c = 2.0\n  do jk = 1, nz\n    do jl = start, end\n      tmp(jl, jk) = q(jl, jk) + c\n    end do\n  end do\n  call inner_kernel(start, end, nlon, nz, tmp, c)\n  do jk = 1, nz\n    do jl = start, end\n      t(jl, jk) = tmp(jl, jk)\n    end do\n  end do')
     out.append(('nested-kernel', PARKIND + 'module scc_mod\ncontains\n' + DRV + nested + INNER + 'end module scc_mod\n'))
+    across = KHDR.format(decls='  real :: zsurf(nlon)\n  real :: tmp(nlon, nz)', body='  c = 2.0\n  do jl = start, end\n    zsurf(jl) = q(jl, 1)*c\n  end do\n  do jk = 1, nz\n    do jl = start, end\n      tmp(jl, jk) = q(jl, jk) + c\n    end do\n  end do\n  call inner_kernel(start, end, nlon, nz, tmp, c)\n  do jk = 1, nz\n    do jl = start, end\n      t(jl, jk) = tmp(jl, jk) + zsurf(jl)\n    end do\n  end do')
+    out.append(('temp-across-nested-call', PARKIND + 'module scc_mod\ncontains\n' + DRV + across + INNER + 'end module scc_mod\n'))
+    # Fortran is case-insensitive: the same call trees in IFS-style upper-case spelling of the kernel variables
+    def upcase(src):
+        import re as _re
+        for w in ('zsurf', 'tmp', 'jl', 'jk', 'nlon', 'nz', 'start', 'end'):
+            src = _re.sub(rf'(?<![A-Za-z_%]){w}(?![A-Za-z_0-9])(?! subroutine| module| do| if| data)', w.upper(), src)
+        return src
+    for nm, src in list(out):
+        if nm in ('temp-across-nested-call', 'temporaries-2d-1d', 'conditional-horizontal'):
+            up = upcase(src).replace('END subroutine', 'end subroutine').replace('END module', 'end module').replace('END do', 'end do').replace('END if', 'end if')
+            out.append((nm + '-UPPER', up))
     return out
 
 
